@@ -132,6 +132,11 @@ func runC08(c *Ctx) {
 				}
 
 				guard = []string{"nil(call:" + adapterT + ".checkReadAccess(param#0,call:(pkg/resource.*).Namespace(" + tgt + "),call:(pkg/resource.*).Type(" + tgt + ")," + id + "))"}
+
+				// whoever may change the finalizers of this very resource (a strong / primary / mapped input covering its id) may read it
+				if name != "List" {
+					guard = append(guard, "nil(call:"+adapterT+".checkFinalizerAccess(param#0,call:(pkg/resource.*).Namespace("+tgt+"),call:(pkg/resource.*).Type("+tgt+"),call:(pkg/resource.Pointer).ID("+tgt+")))")
+				}
 			case writeM[name]:
 				guard = []string{
 					"true(call:" + adapterT + ".isOutput(param#0,call:(pkg/resource.*).Type(" + tgt + ")))",
